@@ -10,6 +10,7 @@ import (
 
 	"verif/internal/kinds"
 	"verif/internal/load"
+	"verif/internal/norm"
 	"verif/internal/paths"
 	"verif/internal/report"
 )
@@ -54,6 +55,9 @@ func FormatRules(p *load.Program, tb *kinds.Table, pres *FieldPresence, pf *Prin
 		}
 		return
 	}
+	// the formatter's primitives (interpreted by fmtStmt) and the per-kind methods are kept; other helpers are inlined
+	prim := map[string]bool{"newToken": true, "newSemicolonTkn": true, "formatList": true, "formatStmts": true, "addFreeFloating": true, "addIndent": true, "getFreeFloating": true, "resetFreeFloating": true}
+	im.UseNorm(func(fn *types.Func) bool { return prim[fn.Name()] || tb.ByMethod[fn.Name()] != nil }, norm.Options{})
 	kms, missing := im.KindMethods()
 	for _, mname := range missing {
 		visitsAll.Bad(mname, "-", mname, "the formatter has no method for this kind")
@@ -66,7 +70,7 @@ func FormatRules(p *load.Program, tb *kinds.Table, pres *FieldPresence, pf *Prin
 		pos := im.pos(fd)
 		recvO := im.recvObj(fd)
 		nO := im.paramObj(fd, 0)
-		ps, err := paths.Enumerate(fd.Body)
+		ps, err := paths.Enumerate(im.Body(fd))
 		if err != nil {
 			for _, r := range all {
 				r.Unknown(k.Name, pos, k.Method, "undecided:idiom: "+err.Error())
@@ -324,47 +328,42 @@ func FormatRules(p *load.Program, tb *kinds.Table, pres *FieldPresence, pf *Prin
 
 func (im *Impl) fmtCond(cond ast.Expr, truth bool, n types.Object, facts *fmtFacts) {
 	cond = unparen(cond)
-	switch x := cond.(type) {
-	case *ast.BinaryExpr:
-		switch x.Op {
-		case token.LAND:
-			if truth {
-				im.fmtCond(x.X, true, n, facts)
-				im.fmtCond(x.Y, true, n, facts)
-			}
-			return
-		case token.LOR:
-			if !truth {
-				im.fmtCond(x.X, false, n, facts)
-				im.fmtCond(x.Y, false, n, facts)
-			}
-			return
-		case token.NEQ, token.EQL:
-			if f, ok := im.fieldOf(x.X, n); ok && im.isNil(x.Y) {
-				nonNil := (x.Op == token.NEQ) == truth
-				if nonNil {
-					facts.nonNil[f] = true
-				} else {
-					facts.isNil[f] = true
-				}
-			}
-			return
-		case token.GTR, token.LEQ, token.GEQ, token.LSS:
-			// len(n.L) > 0  |  len(n.L) >= 1
-			if c, ok := unparen(x.X).(*ast.CallExpr); ok && len(c.Args) == 1 {
-				if id, ok := c.Fun.(*ast.Ident); ok && id.Name == "len" {
-					if f, ok := im.fieldOf(c.Args[0], n); ok {
-						rhs := exprString(x.Y)
-						pos := (x.Op == token.GTR && rhs == "0") || (x.Op == token.GEQ && rhs == "1")
-						if pos {
-							if truth {
-								facts.nonEmpty[f] = true
-							} else {
-								facts.empty[f] = true
-							}
-						}
-					}
-				}
+	if ue, ok := cond.(*ast.UnaryExpr); ok && ue.Op == token.NOT {
+		im.fmtCond(ue.X, !truth, n, facts)
+		return
+	}
+	x, ok := cond.(*ast.BinaryExpr)
+	if !ok {
+		return
+	}
+	switch x.Op {
+	case token.LAND:
+		if truth {
+			im.fmtCond(x.X, true, n, facts)
+			im.fmtCond(x.Y, true, n, facts)
+		}
+		return
+	case token.LOR:
+		if !truth {
+			im.fmtCond(x.X, false, n, facts)
+			im.fmtCond(x.Y, false, n, facts)
+		}
+		return
+	}
+	if f, neq, ok := im.nilTest(x, func(e ast.Expr) (string, bool) { return im.fieldOf(e, n) }); ok {
+		if neq == truth {
+			facts.nonNil[f] = true
+		} else {
+			facts.isNil[f] = true
+		}
+		return
+	}
+	if arg, nonEmptyWhenTrue, ok := im.lenTest(x); ok {
+		if f, ok := im.fieldOf(arg, n); ok {
+			if nonEmptyWhenTrue == truth {
+				facts.nonEmpty[f] = true
+			} else {
+				facts.empty[f] = true
 			}
 		}
 	}
@@ -471,7 +470,7 @@ func (im *Impl) fmtStmt(st ast.Stmt, recv, n types.Object, evs *[]fmtEvent) stri
 		if name, ok := im.methodCall(call, recv); ok {
 			switch name {
 			case "formatStmts":
-				if ue, ok := call.Args[0].(*ast.UnaryExpr); ok {
+				if ue, ok := unparen(call.Args[0]).(*ast.UnaryExpr); ok {
 					if f, ok := im.fieldOf(ue.X, n); ok {
 						*evs = append(*evs, fmtEvent{kind: "child-stmts", field: f, arg: f, pos: st.Pos()})
 					}
